@@ -54,7 +54,8 @@ def cases(tier, seed):
         if rnd.random() < 0.5:
             local, peer = m, rnd.choice([m, 65536, 0, 2 ** 32 - 1])
         else:
-            local, peer = rnd.choice([65536, 2 ** 31, 2 ** 32 - 1]), m
+            # (0: the local side is configured without a limit of its own)
+            local, peer = rnd.choice([65536, 2 ** 31, 2 ** 32 - 1, 0]), m
         yield dict(local=local, peer=peer, seed=seed * 100003 + i)
     if tier == 'thorough':
         from pynetdicom2 import dimsemessages  # noqa
@@ -79,7 +80,10 @@ def evaluate(out, want, by_content=False):
                     s.index, s.cls, ' as a contiguous, byte-exact fragment sequence' if by_content
                     else '')))
             continue
-        fr, cmd, data = peers.check_fragmentation(g, s.max_length, s.pcid)
+        # the bound in force is the harness's own (smaller non-zero of what the entity was
+        # configured with and what the peer announced), not what the library thinks it is
+        bound = out['neg'] if out.get('neg') is not None else s.max_length
+        fr, cmd, data = peers.check_fragmentation(g, bound, s.pcid)
         rec['cmd'], rec['data'], rec['npdv'] = cmd, data, sum(len(p['pdvs']) for p in g)
         if want == 'c06':
             for f in fr:
@@ -182,7 +186,7 @@ def run_case(case, want='c06'):
                          'detail': '%s\ncase %r' % (t.tb, case)})
         recs = []
         for rec_ in out['assocs']:
-            sub = {'peer': rec_['peer'], 'sends': rec_['sends']}
+            sub = {'peer': rec_['peer'], 'sends': rec_['sends'], 'neg': out.get('neg')}
             recs += evaluate(sub, want, by_content=case.get('senders', 1) > 1)
             for ut in rec_['users']:
                 if ut.exc is not None and isinstance(ut.exc, Exception) and ut is not t:
